@@ -57,6 +57,9 @@ structure St where
   peak : Int := 0                        -- the largest fleet seen
   booked : Int := 0                      -- Σ actual × cycle over the logged cycles
   nlogs : Int := 0
+  enoughSince : Option Int := none       -- since when enough hashrate has been connected without a break
+  lagAtRec : Int := 0                    -- how far behind the contract was then
+  spareMin : Int := 0                    -- the least spare hashrate (fleet − rate) since
   unknownSince : List (String × Int) := []  -- miners directed to the contract's destination that the watcher's account does not list
 
 def total (st : St) : Int := st.miners.foldl (fun a m => a + m.2) 0
@@ -224,6 +227,20 @@ def mon (st : St) (op : List String) (outs : List (List String)) : St × List St
     let lag := st6.rate * (el - 10) - delivered
     let c1 := if lead > cycleWorth + slack then
       [s!"PROP delivery runs ahead of the contracted rate by {lead} GHs, more than one cycle's worth ({cycleWorth}): delivered {delivered}, due {due} after {el} s"] else []
+    -- what earlier cycles fell short is made up once enough hashrate is connected again: with a spare of `spareMin` GH/s the
+    -- shortfall of then is gone after 2·lag/(spare·cycle) cycles (half the spare put to use), and three more to get going
+    let enoughNow := decide (total st6 * 5 ≥ st6.rate * 6)
+    let st6 := if enoughNow then
+        (match st6.enoughSince with
+         | some _ => { st6 with spareMin := min st6.spareMin (total st6 - st6.rate) }
+         | none => { st6 with enoughSince := some st6.now, lagAtRec := max lag 0, spareMin := total st6 - st6.rate })
+      else { st6 with enoughSince := none }
+    let c3 := match st6.enoughSince with
+      | some tr =>
+        let need := 4 + (2 * st6.lagAtRec) / (max st6.spareMin 1 * st6.cycle)
+        if !st6.enough ∧ !ended ∧ st6.now - tr ≥ need * st6.cycle ∧ lag > cycleWorth + slack then
+          [s!"PROP what earlier cycles fell short is not made up: {lag} GHs behind the contracted rate, more than one cycle's worth ({cycleWorth}), although enough hashrate ({st6.spareMin} GH/s to spare at least) has been connected for {st6.now - tr} s ({need} cycles are {need * st6.cycle} s); the contract was {st6.lagAtRec} GHs behind when it came"] else []
+      | none => []
     let c2 := if st6.enough ∧ el > st6.cycle ∧ lag > cycleWorth + slack then
       [s!"PROP delivery falls behind the contracted rate by {lag} GHs, more than one cycle's worth ({cycleWorth}) although enough hashrate is connected: delivered {delivered}, due {due} after {el} s"] else []
     -- C20: the mean hashrate the contract reports is the work that reached its destination over the time since the
@@ -237,7 +254,7 @@ def mon (st : St) (op : List String) (outs : List (List String)) : St × List St
           [s!"C20 the contract reports a mean of {mean} GH/s {elm} s after it started delivering, but {delivered} GHs reached its destination: {delivered / elm} GH/s"]
         else []
       | none => []
-    (st6, logComplaints ++ booksC ++ clockC ++ replC ++ oblC ++ knownC ++ c1 ++ c2 ++ estC)
+    (st6, logComplaints ++ booksC ++ clockC ++ replC ++ oblC ++ knownC ++ c1 ++ c2 ++ c3 ++ estC)
 
 def monitor : Monitor := { σ := St, init := {}, step := mon }
 
